@@ -33,6 +33,9 @@ CFG = {
     "rule": (
         "one case = one input run through the real code: a token through UnmarshalJSON on up to five paths (direct, encoding/json "
         "top-level and struct field, jsoniter top-level and struct field; paths grouped by the bytes that reached UnmarshalJSON), "
+        "each path twice with the receiver holding two different non-zero values beforehand (a decoder that forgets to assign is seen); "
+        "instants come in Local / UTC / +08:00 and as the zero time.Time, with the year-one second -62135596800 and its neighbours, "
+        "year 9999, and the wrap points of time.Time's second counter in every pool; "
         "a text through FromString/HexI64/..., a value through MarshalJSON/ToString/I64Hex/... and back, an SQL argument through "
         "Scan, a value through Value and Scan, an argument through UnmarshalTOML; or one HISTORY of encoder calls (class hist: 2-8 "
         "values encoded through every encoder entry point of the type - MarshalJSON, json.Marshal, jsoniter.Marshal, both inside a "
